@@ -166,18 +166,6 @@ impl<T: Display + Ord> Ord for Criteria<T> {
     }
 }
 
-#[cfg(windows)]
-pub fn calc_depth(s: &str) -> u32 {
-    s.matches("\\").count() as u32
-}
-
-#[cfg(not(windows))]
-pub fn calc_depth(s: &str) -> u32 {
-    // the root directory "/" has depth 1, its children depth 2 and so on
-    // (0 is reserved by the caller for "base depth not known yet")
-    s.trim_end_matches('/').matches("/").count() as u32 + 1
-}
-
 pub fn path_error_message(p: &Path, e: io::Error) {
     error_message(&p.to_string_lossy(), &e.to_string());
 }
